@@ -1458,6 +1458,12 @@ func forceCfg(cfg *dumpCfg, ex exSpec, rng *hk.Rand, r *hk.Run) {
 			r.Count("retry after an attempt without response, dump in the request's own buffer")
 		}
 	}
+	if ex.DisableMid || ex.ForceAsync {
+		cfg.ClientBase, cfg.ClientTail = nil, nil // the scenario dictates the client-level options
+		if cfg.Client != nil {
+			cfg.Client.OutID = 0
+		}
+	}
 	if ex.DisableMid {
 		if cfg.Client == nil {
 			o := genOpt(rng, 0, r)
